@@ -382,7 +382,11 @@ func runDir(in string, seed int64, sum *tl.Summary) {
 		var blob []byte
 		switch e.Act.Op {
 		case "New":
-			_, err = d.ks.ImportECDSA(d.priv(e.Act.Key), passOf[e.Act.P])
+			mine := d.priv(e.Act.Key)
+			_, err = d.ks.ImportECDSA(mine, passOf[e.Act.P])
+			if mine.D.Cmp(d.priv(e.Act.Key).D) != 0 {
+				sum.Violate("ImportECDSA modified the caller's private key", tl.M{"edge": e})
+			}
 		case "Update":
 			err = d.ks.Update(d.acct(e.Act.Key), passOf[e.Act.P], passOf[e.Act.Q])
 		case "Delete":
@@ -442,7 +446,14 @@ func runDir(in string, seed int64, sum *tl.Summary) {
 // ---------------------------------------------------------------- record (V)
 
 func randPass(r interface{ Intn(int) int }) string {
-	switch r.Intn(5) {
+	switch r.Intn(6) {
+	case 5: // long passphrases (beyond the HMAC block size, beyond 2^8 and 2^10 bytes)
+		n := []int{63, 64, 65, 127, 128, 129, 255, 256, 257, 1025, 3000}[r.Intn(11)]
+		b := make([]byte, n)
+		for i := range b {
+			b[i] = byte(33 + r.Intn(90))
+		}
+		return string(b)
 	case 0:
 		return ""
 	case 1:
